@@ -9,6 +9,6 @@ check("C09", "model_checking",
       "in-memory pipe, and DialContext/Accept between real nodes. Real accepts must imply spec accepts; for well-formed pin lists the converse too.",
       "Trusted: Go crypto/x509 and crypto/tls. Time is tested 2 h inside/outside the window, not at the boundary instant. Handshakes cover all vectors "
       "with at most one failing condition plus a seeded sample; the quick tier dials a stratified sample of the stream vectors (thorough: all). "
-      "Open finding C09:stream-name-colon-split (node ids containing ':').",
+      "Fixed: C09:stream-name-colon-split (8d11383; node ids containing ':'); the legacy rule is kept as the failing variant TLSVerify_colonsplit.cfg.",
       "TLA+ decision-table spec, TLC exhaustive enumeration, vector replay into the real verifier/configuration/handshake/mesh (B1)",
       "E4 tables (+ two-node memnet mesh)", "DESIGN.md section 6 C09")
